@@ -260,6 +260,10 @@ class FnContract:
     def ensures(self, pv):
         raise NotImplementedError
 
+    def ensures_all(self, pvs):
+        """obligations about the whole set of explored paths of one configuration"""
+        return ()
+
     def sample(self, rng):
         """random VALID input over the real field: (assignment {symbol name: int}, p, meta) or None"""
         return None
